@@ -317,6 +317,7 @@ package server
 //@ spec func byteOr0(b, i) = ite(i < len(b), b[i], 0)
 //@ spec func numAt(b, o) = i64(byteOr0(b, o) + byteOr0(b, o+1)*0x100 + byteOr0(b, o+2)*0x10000 + byteOr0(b, o+3)*0x1000000 + byteOr0(b, o+4)*0x100000000 + byteOr0(b, o+5)*0x10000000000 + byteOr0(b, o+6)*0x1000000000000 + byteOr0(b, o+7)*0x100000000000000)
 //@ func (*LockManager).ProcessLockData
+//@   safe
 //@   requires C15.frames: self != nil && command != nil && implies(command.Data != nil, !isnil(command.Data.Data) && len(command.Data.Data) >= 6 && len(command.Data.Data) < 0x40000000 && voffC(command.Data) <= len(command.Data.Data)) && implies(self.currentData != nil && !isnil(self.currentData.data), len(self.currentData.data) >= 6 && len(self.currentData.data) < 0x40000000 && voffM(self.currentData) <= len(self.currentData.data))
 //@   ensures C15.op.unset: implies(calls(NewLockManagerDataUnsetData) == 1 && calls(ProcessLockData) == 0, isnil(curValue(self)) && self.currentData != nil && self.currentData.commandType == 1)
 //@   ensures C15.op.consumed: command.Data == nil || calls(ProcessLockData) >= 1
@@ -1199,5 +1200,5 @@ package server
 // C13: the value frame read from the connection is handed on only if it has a header
 //@ func (*BinaryServerProtocol).ProcessParseLockData
 //@   requires self != nil
-//@   ensures C13.valueframe: implies(isnil(result1), result0 != nil && len(result0.Data) >= 6)
+//@   ensures C13.valueframe: implies(isnil(result1), result0 != nil && len(result0.Data) >= 6 && implies(result0.DataFlag&0x10 != 0, len(result0.Data) >= 8 && voffC(result0) <= len(result0.Data)))
 //@   modifies all
